@@ -1,4 +1,173 @@
+(* Props/C54.v -- Sticky cookies are only sent to hosts and paths they belong to.
+   Statements only; each is closed by [exact] of a lemma proved in Proofs/StickyCookie*.v.
+   The model has two variants of stickycookie.domain_match and of the path test:
+     Fixed = the tree with fixes/C54-domain-suffix-path-segment.diff (full theorems),
+     Orig  = the unchanged tree (refuted + partial; three known findings).
+   Specification (Proofs/StickyCookieSpec.v): rfc_domain_match (RFC 6265 5.1.3), rfc_cookie_domain (5.2.3),
+   rfc_path_match (5.1.4) on uri_path_of (the request target up to the first question mark), is_ip_address. *)
 From Coq Require Import List Bool NArith.
-From MV Require Import Base.Bytes Model.StickyCookie.
-Theorem C54_stub : True. Proof. exact I. Qed.
-Print Assumptions C54_stub.
+From MV Require Import Base.Bytes Model.StickyCookie Proofs.StickyCookieSpec Proofs.StickyCookieMain.
+Import ListNotations.
+
+(* Repaired code.  For every history h (responses with arbitrary parsed Set-Cookie entries, requests), filter
+   setting, and request (host, port, path): every pair (n, val) the request hook puts into the Cookie header
+   was set by a non-expired Set-Cookie entry c of a response in h on the same port, whose key domain d
+   (Domain attribute, else the responding host) is domain-matched by the responding host and by the request
+   host, and whose key path cp is path-matched by the request path. *)
+Theorem C54_attached_only_if_match :
+  forall (flt_on : bool) (h : list event) (host : str) (port : N) (path : str)
+         (l : list (str * option str)) (n : str) (val : option str),
+  request_loop Fixed host port path (run Fixed flt_on h) = Some l -> In (n, val) l ->
+  exists rhost cs c d cp,
+    In (Resp rhost port cs) h /\ In c cs
+    /\ c_name c = n /\ c_value c = val /\ c_expired c = Some false
+    /\ ckey c rhost port = (Some d, port, Some cp)
+    /\ rfc_domain_match (lower rhost) (rfc_cookie_domain d)
+    /\ rfc_domain_match (lower host) (rfc_cookie_domain d)
+    /\ exists u, uri_path_of u path /\ rfc_path_match u cp.
+Proof. exact fixed_attached_only_if_match. Qed.
+Print Assumptions C54_attached_only_if_match.
+
+(* The same at the observable: the Cookie header after the hook is the one the client sent, or the formatted
+   list of such pairs (and then the filter is set and matches the flow). *)
+Theorem C54_header_only_if_match :
+  forall (flt_on fmatch : bool) (h : list event) (host : str) (port : N) (path : str) (orig hdr : option str),
+  request Fixed flt_on fmatch host port path orig (run Fixed flt_on h) = Some hdr ->
+  hdr = orig \/
+  exists l, hdr = Some (format_cookie_header l) /\ flt_on = true /\ fmatch = true /\
+    forall n val, In (n, val) l ->
+    exists rhost cs c d cp,
+      In (Resp rhost port cs) h /\ In c cs
+      /\ c_name c = n /\ c_value c = val /\ c_expired c = Some false
+      /\ ckey c rhost port = (Some d, port, Some cp)
+      /\ rfc_domain_match (lower rhost) (rfc_cookie_domain d)
+      /\ rfc_domain_match (lower host) (rfc_cookie_domain d)
+      /\ exists u, uri_path_of u path /\ rfc_path_match u cp.
+Proof. exact fixed_header_only_if_match. Qed.
+Print Assumptions C54_header_only_if_match.
+
+(* A Set-Cookie entry whose Domain does not domain-match the responding host does nothing; a response made of
+   such entries leaves any jar unchanged; a deletion is only accepted for a domain the host domain-matches. *)
+Theorem C54_foreign_cookie_not_stored :
+  forall (host : str) (port : N) (c : cookie) (d : str) (q : option str),
+  ckey c host port = (Some d, port, q) ->
+  ~ rfc_domain_match (lower host) (rfc_cookie_domain d) ->
+  cookie_action Fixed host port c = ASkip.
+Proof. exact foreign_cookie_ignored_fixed. Qed.
+Print Assumptions C54_foreign_cookie_not_stored.
+
+Theorem C54_foreign_response_leaves_jar :
+  forall (flt_on : bool) (host : str) (port : N) (cs : list cookie) (j : jar),
+  (forall c, In c cs -> exists d q, ckey c host port = (Some d, port, q)
+                                    /\ ~ rfc_domain_match (lower host) (rfc_cookie_domain d)) ->
+  response Fixed flt_on host port cs j = (j, true).
+Proof. exact foreign_response_leaves_jar_fixed. Qed.
+Print Assumptions C54_foreign_response_leaves_jar.
+
+Theorem C54_delete_only_if_match :
+  forall (host : str) (port : N) (c : cookie) (k : key) (n : str),
+  cookie_action Fixed host port c = ADel k n ->
+  exists d q, k = (d, port, q) /\ rfc_domain_match (lower host) (rfc_cookie_domain d).
+Proof. exact delete_only_if_match_fixed. Qed.
+Print Assumptions C54_delete_only_if_match.
+
+(* Expired cookies are removed (both variants): an expired entry that the addon accepts from the host is a
+   deletion, and after any history a completed response carrying it (not set again later in that response)
+   leaves no binding under its key and name. *)
+Theorem C54_expired_is_deletion :
+  forall (v : variant) (host : str) (port : N) (c : cookie) (d : str) (q : option str),
+  ckey c host port = (Some d, port, q) -> domain_match v host d = true -> c_expired c = Some true ->
+  cookie_action v host port c = ADel (d, port, q) (c_name c).
+Proof. exact cookie_action_expired. Qed.
+Print Assumptions C54_expired_is_deletion.
+
+Theorem C54_expired_removed :
+  forall (v : variant) (h : list event) (host : str) (port : N) (cs1 : list cookie) (c : cookie)
+         (cs2 : list cookie) (k : key) (n : str),
+  cookie_action v host port c = ADel k n ->
+  (forall c' val, In c' cs2 -> cookie_action v host port c' <> ASet k n val) ->
+  snd (response v true host port (cs1 ++ c :: cs2) (run v true h)) = true ->
+  forall val, ~ jar_has (run v true (h ++ [Resp host port (cs1 ++ c :: cs2)])) k n val.
+Proof. exact expired_removed. Qed.
+Print Assumptions C54_expired_removed.
+
+(* Host-only cookies: if no response of the history carries a Domain attribute and no responding host starts
+   with a dot, an attached pair comes from a response of the same host (up to ASCII case) and port. *)
+Theorem C54_host_only :
+  forall (flt_on : bool) (h : list event) (host : str) (port : N) (path : str)
+         (l : list (str * option str)) (n : str) (val : option str),
+  request_loop Fixed host port path (run Fixed flt_on h) = Some l -> In (n, val) l ->
+  (forall rhost p cs c, In (Resp rhost p cs) h -> In c cs -> c_domain c = None /\ first_is DOT (lower rhost) = false) ->
+  exists rhost cs, In (Resp rhost port cs) h /\ lower rhost = lower host.
+Proof. exact fixed_host_only. Qed.
+Print Assumptions C54_host_only.
+
+(* Unchanged code: the full statement is false.  Witness 1 (finding domain-inner-substring):
+   www.example.com:80 sets sid=1 with Domain=.example.com; the request to a.example.com.evil.org:80 gets it,
+   although no jar entry holding that pair has a domain the request host domain-matches. *)
+Theorem C54_unchanged_refuted_domain :
+  exists l, request_loop Orig s_evil_host 80 [SLASH] (run Orig true refute_history_dom) = Some l
+    /\ In (s_sid, Some [x31]) l
+    /\ forall d cp, jar_has (run Orig true refute_history_dom) (d, 80%N, Some cp) s_sid (Some [x31]) ->
+         ~ rfc_domain_match (lower s_evil_host) (rfc_cookie_domain d).
+Proof. exact orig_refuted_domain. Qed.
+Print Assumptions C54_unchanged_refuted_domain.
+
+(* Witness 2 (finding path-prefix-not-segment): the cookie has Path=/foo, the request is for /foobar. *)
+Theorem C54_unchanged_refuted_path :
+  exists l, request_loop Orig s_www 80 s_foobar (run Orig true refute_history_path) = Some l
+    /\ In (s_sid, Some [x31]) l
+    /\ forall d cp, jar_has (run Orig true refute_history_path) (d, 80%N, Some cp) s_sid (Some [x31]) ->
+         forall u, uri_path_of u s_foobar -> ~ rfc_path_match u cp.
+Proof. exact orig_refuted_path. Qed.
+Print Assumptions C54_unchanged_refuted_path.
+
+(* Unchanged code, partial: the conclusion of C54_attached_only_if_match holds for each of its three matching
+   parts outside the findings: no_dom_finding a b = neither dom_inner_substring (cookiejar.domain_match accepts
+   but lower a does not end with lower b) nor dom_extra_dots (lower a is lower b stripped of all leading and
+   trailing dots, and that is not lower b minus one leading dot); no_path_finding t cp = the cookie path ends
+   inside the URI path of t at a segment boundary (path_segment_boundary). *)
+Theorem C54_unchanged_partial :
+  forall (flt_on : bool) (h : list event) (host : str) (port : N) (path : str)
+         (l : list (str * option str)) (n : str) (val : option str),
+  request_loop Orig host port path (run Orig flt_on h) = Some l -> In (n, val) l ->
+  exists rhost cs c d cp,
+    In (Resp rhost port cs) h /\ In c cs
+    /\ c_name c = n /\ c_value c = val /\ c_expired c = Some false
+    /\ ckey c rhost port = (Some d, port, Some cp)
+    /\ (no_dom_finding rhost d -> rfc_domain_match (lower rhost) (rfc_cookie_domain d))
+    /\ (no_dom_finding host d -> rfc_domain_match (lower host) (rfc_cookie_domain d))
+    /\ (no_path_finding path cp -> exists u, uri_path_of u path /\ rfc_path_match u cp).
+Proof. exact attached_only_if_match_orig_partial. Qed.
+Print Assumptions C54_unchanged_partial.
+
+(* The guard is exact on the domain side: whatever the unchanged domain_match accepts is accepted by the
+   repaired one or is one of the two findings, and both findings are accepted by the unchanged code. *)
+Theorem C54_unchanged_findings_exact :
+  forall a b : str,
+  (domain_match Orig a b = true ->
+     domain_match Fixed a b = true \/ dom_inner_substring a b = true \/ dom_extra_dots a b = true)
+  /\ (dom_inner_substring a b = true \/ dom_extra_dots a b = true -> domain_match Orig a b = true).
+Proof. exact (fun a b => conj (domain_match_orig_decompose a b) (dom_findings_are_orig a b)). Qed.
+Print Assumptions C54_unchanged_findings_exact.
+
+Theorem C54_unchanged_foreign_cookie_partial :
+  forall (host : str) (port : N) (c : cookie) (d : str) (q : option str),
+  ckey c host port = (Some d, port, q) -> no_dom_finding host d ->
+  ~ rfc_domain_match (lower host) (rfc_cookie_domain d) ->
+  cookie_action Orig host port c = ASkip.
+Proof. exact foreign_cookie_ignored_orig_partial. Qed.
+Print Assumptions C54_unchanged_foreign_cookie_partial.
+
+(* Non-vacuity: a concrete history after which the repaired request hook attaches sid=1 and a=2 to
+   www.example.com:80/foo/x?q, nothing to a.example.com.evil.org, only a=2 to /foobar, nothing on port 443. *)
+Theorem C54_nonvacuous :
+  request_loop Fixed s_www 80 (s_foo ++ [x2f;x78;x3f;x71]) (run Fixed true nv_history)
+    = Some [(s_sid, Some [x31]); ([x61], Some [x32])]
+  /\ request Fixed true true s_www 80 (s_foo ++ [x2f;x78;x3f;x71]) None (run Fixed true nv_history)
+     = Some (Some [x73;x69;x64;x3d;x31;x3b;x20;x61;x3d;x32])
+  /\ request_loop Fixed s_evil_host 80 s_foo (run Fixed true nv_history) = Some []
+  /\ request_loop Fixed s_www 80 s_foobar (run Fixed true nv_history) = Some [([x61], Some [x32])]
+  /\ request_loop Fixed s_www 443 s_foo (run Fixed true nv_history) = Some [].
+Proof. exact nonvacuous. Qed.
+Print Assumptions C54_nonvacuous.
